@@ -561,13 +561,13 @@ func nodeLiterals(f *ast.File) []NodeLit {
 // ---------- F-env : generateProxyEnv ----------
 
 type EnvFacts struct {
-	Defaults  map[string]string   // variable -> default kind string
-	VarOrder  []string            // declaration order
-	Cases     [][2]string         // case label -> variable assigned entity.Alias
-	MapKeys   []string            // env map keys that are variables (in order)
+	Defaults  map[string]string      // variable -> default kind string
+	VarOrder  []string               // declaration order
+	Cases     [][2]string            // case label -> variable assigned entity.Alias
+	MapKeys   []string               // env map keys that are variables (in order)
 	Accessors map[string][][2]string // variable -> (accessor name, "method:GetX" | "lit:...")
-	TopLevel  [][2]string         // literal-string keys of env map -> value
-	Methods   map[string][]string // Env method -> field chain after env.Node (deref path), all chains
+	TopLevel  [][2]string            // literal-string keys of env map -> value
+	Methods   map[string][]string    // Env method -> field chain after env.Node (deref path), all chains
 	MethodRet map[string]string
 }
 
@@ -712,17 +712,17 @@ func nodePointerFields(f *ast.File) []string {
 // ---------- F-pool : Initialize ----------
 
 type PoolFacts struct {
-	NumWorkers string
-	Chans      [][2]string // name -> capacity expression
-	Order      []string    // program order of the main goroutine's phases
-	WorkerSends []string   // channel sends inside the worker loop, in order
+	NumWorkers           string
+	Chans                [][2]string // name -> capacity expression
+	Order                []string    // program order of the main goroutine's phases
+	WorkerSends          []string    // channel sends inside the worker loop, in order
 	ContinueBeforeResult bool
-	NumWorkersNat int
-	Worker  []string // control shape of the worker function (see shape)
-	Sender  []string // control shape of the queueing loop
-	Status  []string // control shape of the status goroutine
-	Closer  []string // control shape of the closer goroutine
-	Collect []string // control shape of the collecting loop (channel operations only)
+	NumWorkersNat        int
+	Worker               []string // control shape of the worker function (see shape)
+	Sender               []string // control shape of the queueing loop
+	Status               []string // control shape of the status goroutine
+	Closer               []string // control shape of the closer goroutine
+	Collect              []string // control shape of the collecting loop (channel operations only)
 }
 
 // shape translates a statement list into the sequence of its concurrency-relevant operations:
@@ -923,11 +923,11 @@ func poolFacts(f *ast.File) PoolFacts {
 // ---------- F-json : bundle keys ----------
 
 type JSONFacts struct {
-	ProducerTop   []string // json tags of CQLFiles
-	ProducerFile  []string // json tags of CQLFileContent
-	ConsumerTop   []string // keys indexed on the response map
-	ConsumerFile  []string // keys indexed on each file map
-	ProducerExt   string
+	ProducerTop       []string // json tags of CQLFiles
+	ProducerFile      []string // json tags of CQLFileContent
+	ConsumerTop       []string // keys indexed on the response map
+	ConsumerFile      []string // keys indexed on each file map
+	ProducerExt       string
 	ResultKeysWritten []string // keys written into each result_set entry by processQuery
 	ResultTopWritten  []string
 	SarifKeysRead     []string
@@ -1202,6 +1202,65 @@ func fingerprint(fd *ast.FuncDecl) string {
 	return hex.EncodeToString(h[:8])
 }
 
+// packageVars lists every package-level variable of the packages a query runs through (files guarded by the verif
+// build tag excluded; of the antlr package only the hand-written listener): "dir/file.go:name type-or-initialiser".
+func packageVars(sp string) []string {
+	var out []string
+	for _, dir := range []string{"cmd", "graph", "graph/java", "model", "antlr"} {
+		ents, err := os.ReadDir(filepath.Join(sp, dir))
+		if err != nil {
+			die("packageVars: %v", err)
+		}
+		for _, e := range ents {
+			name := e.Name()
+			if e.IsDir() || !strings.HasSuffix(name, ".go") || strings.HasSuffix(name, "_test.go") {
+				continue
+			}
+			if dir == "antlr" && name != "listener_impl.go" {
+				continue
+			}
+			raw, err := os.ReadFile(filepath.Join(sp, dir, name))
+			if err != nil {
+				die("packageVars: %v", err)
+			}
+			head := string(raw)
+			if i := strings.Index(head, "\npackage "); i >= 0 {
+				head = head[:i]
+			}
+			if strings.Contains(head, "go:build") && strings.Contains(head, "verif") {
+				continue
+			}
+			f := parseFile(filepath.Join(sp, dir, name))
+			for _, d := range f.Decls {
+				gd, ok := d.(*ast.GenDecl)
+				if !ok || gd.Tok != token.VAR {
+					continue
+				}
+				for _, sp_ := range gd.Specs {
+					vs := sp_.(*ast.ValueSpec)
+					for i, n := range vs.Names {
+						desc := ""
+						if vs.Type != nil {
+							desc = src(vs.Type)
+						} else if i < len(vs.Values) {
+							desc = src(vs.Values[i])
+							if bl, ok := vs.Values[i].(*ast.BasicLit); ok {
+								desc = "literal:" + bl.Kind.String() // (the value itself may change: a version string)
+							}
+							if j := strings.IndexAny(desc, "{\n"); j >= 0 {
+								desc = desc[:j]
+							}
+						}
+						out = append(out, dir+"/"+name+":"+n.Name+" "+strings.TrimSpace(desc))
+					}
+				}
+			}
+		}
+	}
+	sort.Strings(out)
+	return out
+}
+
 func main() {
 	if len(os.Args) != 3 {
 		die("usage: factgen <repo-root> <out-dir>")
@@ -1327,7 +1386,10 @@ func main() {
 	b.WriteString("def poolCollectShape : List String := " + leanStrList(pf.Collect) + "\n\n")
 
 	// json keys
-	for _, fn := range []struct{ name, fun string; file *ast.File }{{"ruleReaderCi", "ParseQuery", ci}, {"ruleCommentLine", "ParseCommentLine", ci}, {"ruleReaderFile", "ExtractQueryFromFile", cmdq}} {
+	for _, fn := range []struct {
+		name, fun string
+		file      *ast.File
+	}{{"ruleReaderCi", "ParseQuery", ci}, {"ruleCommentLine", "ParseCommentLine", ci}, {"ruleReaderFile", "ExtractQueryFromFile", cmdq}} {
 		fd := findFunc(fn.file, fn.fun)
 		if fd == nil {
 			die("%s not found", fn.fun)
@@ -1563,6 +1625,7 @@ func main() {
 	fmt.Fprintf(&b, "def entryPointCallsItself : Nat := %d\n", entryRecursive)
 	fmt.Fprintf(&b, "def entryPointPassCalls : Nat := %d\n", entryPassCalls)
 	fmt.Fprintf(&b, "def passNestedGraphLoops : Nat := %d\n", passGraphLoops)
+	b.WriteString("def packageLevelVars : List String := " + leanStrList(packageVars(sp)) + "\n")
 	fmt.Fprintf(&b, "def consoleReadersCreatedInLoop : Nat := %d\n", inLoop)
 	fmt.Fprintf(&b, "def consoleReadersCreatedOutsideLoop : Nat := %d\n", outside)
 	b.WriteString("\nend Cpf.Generated\n")
